@@ -689,6 +689,7 @@ class StmtMixin:
             head = st.fork()
             self.havoc_for_loop(s, head, [s.get("Body"), s.get("Post"), s.get("Cond")])
             self.havoc_counters(head, havoc_ev)
+            self.induction_facts(s, st, head)
             self.assume_invariants(s, head)
             iter_pre = head.fork()
             c = self.ev(s["Cond"], head) if s.get("Cond") else TRUE
@@ -861,6 +862,86 @@ class StmtMixin:
             pass
         res = self.merge_all([o for o in [exit_st] + ctx.breaks if o is not None])
         return res
+
+    def induction_facts(self, s, st0, head):
+        """Facts that hold at the head of a counting loop by construction (classical induction-variable analysis), so that a
+        `for i, x := a, b; i < n; i, x = i+1, x+c` needs no hand-written invariant for `a <= i <= n` and `x == b + (i-a)*c`:
+        variables that only the Post statement changes, by a loop-invariant step (the primary one by +1, compared `<`/`<=`
+        against a loop-invariant bound).  Modular arithmetic makes the linear relation exact even under wrap-around."""
+        post = s.get("Post")
+        if post is None or s.get("Cond") is None:
+            return
+        try:
+            body_acc, _, _ = self.assigned_in(s.get("Body"))
+            all_acc, _, _ = self.assigned_in([s.get("Body"), post])
+        except Exception:
+            return
+        steps = {}   # obj -> step expr node or 1
+        if post.get("k") == "IncDecStmt" and post["X"].get("k") == "Ident" and post.get("Tok") == "++":
+            steps[post["X"].get("obj")] = 1
+        elif post.get("k") == "AssignStmt" and post.get("Tok") in ("=", "+="):
+            if post.get("Tok") == "+=" and len(post["Lhs"]) == 1 and post["Lhs"][0].get("k") == "Ident":
+                steps[post["Lhs"][0].get("obj")] = post["Rhs"][0]
+            elif post.get("Tok") == "=" and len(post["Lhs"]) == len(post["Rhs"]):
+                for l, r in zip(post["Lhs"], post["Rhs"]):
+                    if l.get("k") != "Ident" or r.get("k") != "BinaryExpr" or r.get("Op") != "+":
+                        return
+                    if r["X"].get("k") == "Ident" and r["X"].get("obj") == l.get("obj"):
+                        steps[l.get("obj")] = r["Y"]
+                    else:
+                        return
+        if not steps:
+            return
+        def invariant_expr(e):
+            acc2 = set()
+            def walk(n):
+                if isinstance(n, dict):
+                    if n.get("k") == "Ident" and "obj" in n:
+                        acc2.add(n["obj"])
+                    if n.get("k") == "CallExpr" and n.get("builtin") not in ("len", "cap"):
+                        acc2.add("<call>")
+                    for v in n.values():
+                        walk(v)
+                elif isinstance(n, list):
+                    for v in n:
+                        walk(v)
+            walk(e)
+            return "<call>" not in acc2 and not (acc2 & set(all_acc))
+        for obj in list(steps):
+            if obj is None or obj in body_acc or obj in self.escaped or obj not in st0.vars or obj not in head.vars:
+                return
+            if steps[obj] != 1 and not invariant_expr(steps[obj]):
+                return
+        cond = s["Cond"]
+        prim = None
+        if cond.get("k") == "BinaryExpr" and cond.get("Op") in ("<", "<=") and cond["X"].get("k") == "Ident" and cond["X"].get("obj") in steps:
+            o = cond["X"]["obj"]
+            st_ = steps[o]
+            one = st_ == 1 or (isinstance(st_, dict) and st_.get("cv") is not None and st_["cv"].get("v") in (1, "1"))
+            if one and invariant_expr(cond["Y"]) and self.T(cond["X"]).is_int() and self.T(cond["X"]).signed():
+                prim = o
+        if prim is None:
+            return
+        try:
+            i0, i = st0.vars[prim], head.vars[prim]
+            n = self.ev(cond["Y"], head)
+            if not (z3.is_bv(i0) and z3.is_bv(i) and z3.is_bv(n)) or i0.size() != n.size():
+                return
+            hi = n if cond["Op"] == "<" else n + 1
+            if cond["Op"] == "<=":
+                return   # i <= n with n == MaxInt would overflow: not handled
+            self.assume(head, z3.And(i0 <= i, z3.Implies(i0 <= hi, i <= hi), z3.Implies(i0 > hi, i == i0)))
+            for obj, st_ in steps.items():
+                if obj == prim:
+                    continue
+                x0, x = st0.vars[obj], head.vars[obj]
+                cstep = self.ev(st_, head)
+                if not (z3.is_bv(x0) and z3.is_bv(x) and z3.is_bv(cstep)) or x0.size() != i.size() or cstep.size() != i.size():
+                    continue
+                self.assume(head, x == x0 + (i - i0) * cstep)
+            self.models_used.add("induction variables of counting loops (i from a by +1 while i < n; x by a loop-invariant step): bounds and linear relation assumed at the loop head by construction")
+        except (Unsupported, KeyError):
+            return
 
     def exec_snapshot(self, fr):
         return {"obs": len(self.obligations), "facts": len(self.facts), "rets": len(fr.rets), "defers": len(getattr(fr, "defers", [])),
